@@ -9,6 +9,7 @@ use crate::mon::train as mt;
 use crate::report::Ctx;
 use crate::rng::{hash_str, mix, Rng};
 use altrios_core::consist::locomotive::loco_sim::LocomotiveSimulationVec;
+use altrios_core::consist::locomotive::PowertrainType;
 use altrios_core::meet_pass::dispatch::run_dispatch;
 use altrios_core::meet_pass::est_times::make_est_times;
 use altrios_core::prelude::*;
@@ -170,7 +171,42 @@ fn parallel_batch(ctx: &mut Ctx, rng: &mut Rng) {
             fails.push(k);
         }
     }
-    let sims: Vec<LocomotiveSimulation> = (0..n).map(|i| loco_sim(rng, fails.contains(&i))).collect();
+    // a quarter of the batches hold look-alikes: the same unit and trace, the drivetrain efficiency tables of
+    // neighbouring elements agreeing in length, first and last value but not in between (flat / peaked / dipped).
+    // Anything remembered per thread or per process under a partial key confuses exactly such neighbours, and
+    // which of them share a thread changes with the pool size.
+    let lookalikes = rng.chance(0.25);
+    let sims: Vec<LocomotiveSimulation> = if lookalikes {
+        ctx.count("obs.batches_of_look-alike_elements");
+        let base = loco_sim(rng, false);
+        let grid = vec![0.0, 0.25, 0.5, 0.75, 1.0];
+        let e = *rng.pick(&[0.9, 0.92, 0.95]);
+        (0..n)
+            .map(|i| {
+                let mut sim = if fails.contains(&i) { let mut f = loco_sim(rng, true); f.loco_unit = base.loco_unit.clone(); f } else { base.clone() };
+                let eta = match i % 3 {
+                    0 => vec![e; 5],
+                    1 => vec![e, e + 0.02, e + 0.04, e + 0.02, e],
+                    _ => vec![e, e - 0.05, e - 0.1, e - 0.05, e],
+                };
+                let rating = match &sim.loco_unit.loco_type {
+                    PowertrainType::ConventionalLoco(c) => c.edrv.pwr_out_max.value,
+                    PowertrainType::BatteryElectricLoco(b) => b.edrv.pwr_out_max.value,
+                    _ => 1e6,
+                };
+                if let Ok(drv) = ElectricDrivetrain::new(grid.clone(), eta, rating, None) {
+                    match &mut sim.loco_unit.loco_type {
+                        PowertrainType::ConventionalLoco(c) => c.edrv = drv,
+                        PowertrainType::BatteryElectricLoco(b) => b.edrv = drv,
+                        _ => {}
+                    }
+                }
+                sim
+            })
+            .collect()
+    } else {
+        (0..n).map(|i| loco_sim(rng, fails.contains(&i))).collect()
+    };
     // own serial walk of every element
     let serial: Vec<(bool, LocomotiveSimulation)> = sims
         .iter()
@@ -181,6 +217,25 @@ fn parallel_batch(ctx: &mut Ctx, rng: &mut Rng) {
         })
         .collect();
     let really_failing: Vec<usize> = serial.iter().enumerate().filter(|(_, s)| !s.0).map(|(i, _)| i).collect();
+    // history independence: an element walked on a thread that has never computed anything else gives the same
+    // result as its walk above, which ran after the walks of all elements before it on this thread
+    for (i, s) in sims.iter().enumerate().take(8) {
+        let mut c = s.clone();
+        let fresh = std::thread::spawn(move || {
+            let ok = c.walk().is_ok();
+            (ok, c)
+        })
+        .join();
+        ctx.count("obs.elements_walked_on_a_fresh_thread");
+        match fresh {
+            Ok((ok, c)) => {
+                if ok != serial[i].0 || (ok && digest(&c) != digest(&serial[i].1)) {
+                    ctx.violate("independent_of_thread_history", "C18:result_depends_on_what_the_thread_computed_before", format!("element {i} of {n}: its walk on a fresh thread differs from its walk on a thread that had walked elements 0..{i} before"), json!({"element": i, "batch": n, "look_alikes": lookalikes}));
+                }
+            }
+            Err(_) => ctx.count("obs.fresh_thread_panicked"),
+        }
+    }
     // the crate's own serial batch walk
     {
         let mut v = LocomotiveSimulationVec(sims.clone());
